@@ -15,14 +15,15 @@ import vcommon as vc
 
 SPEC = os.path.join(vc.VERIF, "spec", "Hmm")
 NOTE = ("-noGenerateSpecTE",)
-CACHE_VARIANTS = ["KeepD1", "KeepD2", "KeepBack", "BpsKeepD", "D2NoD1", "RaiseKeepsName", "SharedFlag"]
+CACHE_VARIANTS = ["KeepD1", "KeepD2", "KeepBack", "BpsKeepD", "D2NoD1", "RaiseKeepsName", "SharedFlag", "ShareTm"]
 
 
-def _cache_cfg(path, variant, maxver, vars_, invariants):
+def _cache_cfg(path, variant, maxver, vars_, invariants, objs=(1,)):
     with open(path, "w") as f:
         f.write('SPECIFICATION Spec\nCONSTANTS\n  Vars = {%s}\n  BadVars = {"zz"}\n  MaxVer = %d\n'
-                '  Kinds = {"rescaled", "logsum", "lowmem", "full", "auto"}\n  Variant = "%s"\n'
-                'INVARIANTS %s\nCHECK_DEADLOCK FALSE\n' % (", ".join('"%s"' % v for v in vars_), maxver, variant, invariants))
+                '  Kinds = {"rescaled", "logsum", "lowmem", "full", "auto"}\n  Objs = {%s}\n  Variant = "%s"\n'
+                'INVARIANTS %s\nCHECK_DEADLOCK FALSE\n' % (", ".join('"%s"' % v for v in vars_), maxver,
+                                                          ", ".join(str(o) for o in objs), variant, invariants))
 
 
 def _exact_cfg(path, n, maxlen, dp, evals, variant, invariants):
@@ -42,6 +43,7 @@ def _sig(rj):
     ev = rj.event or {}
     hd = _scenario_head(rj)
     sig = {"action": ev.get("e"), "class": hd.get("k", ""), "tm": hd.get("tm", ""), "invariant": rj.invariant or "step"}
+    sig["after_copy"] = any('"e":"Copy"' in ln for ln in (rj.prefix or []))
     if "same" in ev:
         sig["stale"] = bool(ev["same"]) and ev.get("ver") not in ev["same"]
         sig["outcome"] = ev.get("r")
@@ -110,16 +112,25 @@ def run(tier, seed):
     cfg = os.path.join(wd, "cache_ok.cfg")
     vars_ = ["a", "b"] if quick else ["a", "b", "c"]
     maxver = 2 if quick else 3
-    _cache_cfg(cfg, "ok", maxver, vars_, "TypeOK Fresh CachesCurrent")
+    cinv = "TypeOK Fresh CachesCurrent CopyIndependent"
+    _cache_cfg(cfg, "ok", maxver, vars_, cinv)
     r = vc.model_check(SPEC, "HmmCache", cfg, coverage=True, workers=4, extra=NOTE)
-    ck.add_model("HmmCache/ok", r, "Vars=%s BadVars={zz} MaxVer=%d all kinds" % (vars_, maxver))
+    ck.add_model("HmmCache/one-object", r, "Objs={1} Vars=%s BadVars={zz} MaxVer=%d all kinds" % (vars_, maxver))
     if r.invariant:
         ck.violation("design model HmmCache violates %s" % r.invariant, [r.out[-6000:]], tag="model")
+    # two objects: copies (clone / copy constructor / operator=) interleaved with calls on either object
+    cfg = os.path.join(wd, "cache_ok2.cfg")
+    vars2 = ["a"] if quick else ["a", "b"]
+    _cache_cfg(cfg, "ok", 2, vars2, cinv, objs=(1, 2))
+    r = vc.model_check(SPEC, "HmmCache", cfg, coverage=True, extra=NOTE, timeout=3000, heap="12g")
+    ck.add_model("HmmCache/two-objects", r, "Objs={1,2} Vars=%s BadVars={zz} MaxVer=2 all kinds" % vars2)
+    if r.invariant:
+        ck.violation("design model HmmCache (two objects) violates %s" % r.invariant, [r.out[-6000:]], tag="model")
 
     # ... and each memoisation defect is caught by TLC (negative controls)
     def neg(v):
         c = os.path.join(wd, "cache_%s.cfg" % v)
-        _cache_cfg(c, v, 2, ["a", "b"], "Fresh")
+        _cache_cfg(c, v, 2, ["a"], "Fresh", objs=(1, 2) if v == "ShareTm" else (1,))
         return v, vc.model_check(SPEC, "HmmCache", c, workers=1, extra=NOTE)
 
     with ThreadPoolExecutor(max_workers=4) as ex:
@@ -129,7 +140,7 @@ def run(tier, seed):
     ck.extra["negative_controls_rejected"] = ["HmmCache/" + v for v in CACHE_VARIANTS]
 
     # 2. design model of the algorithms against the path-enumeration definition
-    inv = "ModelOk InRange ForwardIsDefinition ChunksCoverSites PosteriorIsDefinition PosteriorsSumToOne"
+    inv = "ModelOk InRange ForwardIsDefinition DerivativesAreDefinition ChunksCoverSites PosteriorIsDefinition PosteriorsSumToOne"
     configs = [("n2", 2, 3, 2, [1, 2])] if quick else [("n2q", 2, 3, 4, [1, 2]), ("n3", 3, 2, 2, [1, 2]), ("n2len4", 2, 4, 2, [1, 2])]
     for name, n, ml, dp, ev in configs:
         cfg = os.path.join(wd, "exact_%s.cfg" % name)
@@ -171,15 +182,18 @@ def run(tier, seed):
 
     ck.exhaustive = True
     ck.rule = ("history part: every history of length <= %d over {update, set break points, logLik, posterior (all/one site), site "
-               "likelihood (all/one), d1(a), d1(b), d2(a), d2(b), d1(unknown)} on each likelihood class and every history of length <= %d "
-               "over {update, (full: setTransitionProbabilities,) Pij, getPij, getEquilibriumFrequencies} on each transition model, plus random histories (1-5 states, 1-52 "
-               "sites, emissions down to 1e-200, auto/full/table transitions, all chunk sizes, random break points, 4 update styles); "
+               "likelihood, d1(a), d1(b), d2(a), d2(b), d1(unknown), copy current->other (clone/copy-ctor/operator=), assign other->current, "
+               "update other, switch object} on each likelihood class and every history of length <= %d over {update, (full: "
+               "setTransitionProbabilities,) Pij, getPij, getEquilibriumFrequencies, copy, assign back, update other, switch} on each "
+               "transition model, plus random histories on up to two objects (1-5 states, 1-52 sites, emissions down to 1e-200, "
+               "auto/full/table transitions, all chunk sizes, random break points, 4 update styles, destruction of copies); "
                "exact part: states 1-4 x sites 1-4 x {auto, full, table} x every subset of break points x {rescaled, logsum, lowmem with "
-               "chunk 1..len+1}, dyadic parameters, 1-3 observations per scenario separated by updates; non-trivial = scenario with at "
-               "least one query after a configuration change" % (3 if quick else 4, 5 if quick else 6))
+               "chunk 1..len+1}, dyadic parameters, 1-3 observations per scenario separated by updates, each with likelihood, posteriors, "
+               "site likelihoods and first/second derivatives w.r.t. both emission parameters against path enumeration; non-trivial = "
+               "scenario with at least one query after a configuration change" % (3 if quick else 4, 4 if quick else 5))
     ck.distinct = ck.traces
     ck.assumptions = ["TLC; CommunityModules Json", "harness/drv_hmm.cpp: harness alphabet/emission/table-transition classes, reference answers from fresh objects",
-                      "agreement at length 5000, emissions 1e-200 (values), derivatives vs finite differences are numeric and NOT decided"]
+                      "agreement at length 5000, emissions 1e-200 (values), derivatives of non-polynomial emissions / w.r.t. transition parameters are numeric and NOT decided"]
     return ck.finish()
 
 
